@@ -222,7 +222,15 @@ func (g *igen) sel(typ string, depth int) string {
 		if key != f {
 			s = key + ": " + f
 		}
-		if f == "fields" || f == "enumValues" {
+		if (f == "fields" || f == "enumValues") && key == f && depth > 0 && !used["s"+f] && g.r.Intn(3) == 0 {
+			// two sibling selections of the same field with different includeDeprecated flags
+			used["s"+f] = true
+			sub := introFieldType[typ+"."+f]
+			flags := []string{"(includeDeprecated: true)", "", "(includeDeprecated: false)"}
+			g.r.Shuffle(3, func(a, b int) { flags[a], flags[b] = flags[b], flags[a] })
+			parts = append(parts, "s"+f+": "+f+flags[0]+" { "+g.sel(sub, 0)+" }")
+			s += flags[1]
+		} else if f == "fields" || f == "enumValues" {
 			switch g.r.Intn(4) {
 			case 0:
 				s += "(includeDeprecated: true)"
@@ -257,6 +265,8 @@ var c14Corpus = []struct{ ID, Query string; Vars map[string]interface{} }{
 	{"D28-alias-on-schema-field", `{ __schema { t: types { name } } }`, nil},
 	{"D29-type-name-variable", `query($n: String!) { __type(name: $n) { name kind } }`, map[string]interface{}{"n": "Item"}},
 	{"D29-includeDeprecated-variable", `query($d: Boolean!) { __type(name: "Item") { fields(includeDeprecated: $d) { name isDeprecated deprecationReason } } }`, map[string]interface{}{"d": true}},
+	{"includeDeprecated-true-then-default-siblings", `{ __type(name: "Item") { a: fields(includeDeprecated: true) { name } b: fields { name } c: fields(includeDeprecated: false) { name } } }`, nil},
+	{"includeDeprecated-across-fields-and-enumValues", `{ __type(name: "State") { fields(includeDeprecated: true) { name } enumValues { name } } s: __type(name: "State") { a: enumValues(includeDeprecated: true) { name } enumValues { name isDeprecated } } }`, nil},
 	{"D30-typename-on-introspection-types", `{ __schema { __typename queryType { __typename fields { __typename args { __typename } } } directives { __typename } } }`, nil},
 	{"D54-schema-description", `{ __schema { description } }`, nil},
 	{"D54-specifiedByURL", `{ __type(name: "Stamp") { name specifiedByURL } }`, nil},
